@@ -36,3 +36,20 @@ Definition shock_shape (m : model) (s : string) : option (list nat) :=
                             else match grid_of m d with Some gd => Some (grid_size gd) | None => None end)
                   (fargs f) ;;
   Some (dims ++ [grid_size g])%list.
+
+(* ---- the checks made when the functions are created (get_lcm_function / process_model) ------ *)
+Definition is_discrete_var (m : model) (x : string) : bool :=
+  match grid_of m x with Some (GDisc _) => true | _ => false end.
+Definition is_discrete_state (m : model) (x : string) : bool :=
+  match assoc x (states m) with Some (GDisc _) => true | _ => false end.
+
+(* _create_stochastic_transition_params + _get_stochastic_weight_function: a stochastic transition
+   must be on a discrete state and depend on discrete variables and the period only;
+   _get_internal_functions: filters must not have parameters *)
+Definition creation_checks (m : model) : bool :=
+  forallb (fun f =>
+             if fstoch f then
+               is_discrete_state m (substring 5 (String.length (fname f) - 5) (fname f))
+               && forallb (fun d => String.eqb d period_name || is_discrete_var m d) (fargs f)
+             else true) (functions m)
+  && forallb (fun f => match function_params m f with [] => true | _ => false end) (filters m).
